@@ -5,6 +5,14 @@ HOME = os.path.dirname(os.path.dirname(os.path.abspath(__file__)))
 sys.path.insert(0, HOME)
 
 CHECKS = {
+ "C05": dict(engine="E4 contract sweep", technique="runtime contract monitor on the real lifting classes with a scripted uniform draw integrated by probing+bisection (flow-balance oracle)",
+    level="exploration", ref="DESIGN.md §3 C05",
+    text="For thousands of generated derivative tables (zeros, near-cancelling, 1e12 spread, shuffled order) and EVERY possible active unit, the real insert/get_active_identifier is evaluated over the whole range of the scripted uniform; the measure of each selection is taken from the code's own answers and the balance equation, the no-non-negative-selection rule (including u=0 and u=1-2^-53), determinism and label independence are checked.",
+    note="Assumes the schemes draw through random.uniform. Balance tolerance 1e-9*sum|q|. Tables up to 12 entries."),
+ "C06": dict(engine="E1 native + history/model differential", technique="history + executable reference model on the real HeapScheduler/ListScheduler, AddressSanitizer+UBSan builds of heap.c under the real Python class, ASan/valgrind C drivers and libFuzzer with an in-driver shadow model",
+    level="exploration", ref="DESIGN.md §3 C06",
+    text="Protocol-respecting push/trash/get histories (1..3000 handlers, ties, equal quotients/remainders, 2^52 times, inf pushes, pickle/dill round trips, counters poked to 2^32-k, array parked at every reallocation boundary before the overflow path) are run on heap, list and a dict model and every answer compared; the same under ASan+UBSan; C drivers run 10^5..10^7 operations under ASan and valgrind (and libFuzzer in the thorough tier).",
+    note="Counter wrap-around reached by writing _minimal_valid_counter before the handler's first push (2^32 real trashes are out of budget). heap.c is rebuilt from /repo's working tree for every run. ASan red zones miss non-adjacent overflows."),
  "C14": dict(engine="E4 contract sweep", technique="runtime contract monitor on Time arithmetic with an exact-rational (fractions.Fraction) oracle over hostile generated operands",
     level="exploration", ref="DESIGN.md §3 C14",
     text="Every generated (time, displacement) / (time, time) case is executed on the real Time class and judged against exact rational arithmetic; held means no case out of 10^5..10^7 boundary-directed cases (carry region, 2^52 quotients, denormals, ties, infinity) violated the contract.",
